@@ -483,7 +483,7 @@ func gateGen(rng *proto.RNG, tier string, shard, nshards int, w *bufio.Writer) {
 	}
 	bound, limit := 2, 60
 	if tier == "thorough" {
-		bound, limit = 3, 1500
+		bound, limit = 3, 500
 	}
 	for i, sc := range gateScenarios() {
 		if i%nshards != shard {
@@ -505,7 +505,7 @@ func gateGen(rng *proto.RNG, tier string, shard, nshards int, w *bufio.Writer) {
 	// random: more appenders arriving late, bulks, failures and recoveries at random moments
 	nRandom := 12
 	if tier == "thorough" {
-		nRandom = 200
+		nRandom = 120
 	}
 	for c := 0; c < nRandom; c++ {
 		r := NewGateRun()
